@@ -10,6 +10,7 @@ import (
 	"sort"
 	"strconv"
 	"strings"
+	"sync"
 	"unicode/utf8"
 
 	te "github.com/ricochet1k/termemu"
@@ -31,6 +32,7 @@ type scriptBackend struct {
 	delivered int
 	reads     int
 
+	wmu              sync.Mutex
 	written          []byte
 	writeSizes       []int // per-call limits (0 = (0,nil)); nil = accept everything
 	writeErrAt       int   // fail the k-th Write call (1-based); 0 = never
@@ -67,7 +69,17 @@ func (b *scriptBackend) Read(p []byte) (int, error) {
 	return n, nil
 }
 
+// writtenNow: the bytes written so far (an implementation that writes from a goroutine of its own
+// must not bring the harness down: it is to be reported through what it wrote and when)
+func (b *scriptBackend) writtenNow() []byte {
+	b.wmu.Lock()
+	defer b.wmu.Unlock()
+	return append([]byte(nil), b.written...)
+}
+
 func (b *scriptBackend) Write(p []byte) (int, error) {
+	b.wmu.Lock()
+	defer b.wmu.Unlock()
 	b.writeCalls++
 	if b.writeErrAt > 0 && b.writeCalls == b.writeErrAt {
 		// io.Writer allows a failing call to have made progress
@@ -527,8 +539,12 @@ func (im *impl) observe(full bool) (obsBlock, te.VerifSnap) {
 	} else {
 		o.E = "E " + strings.Join(es, ",")
 	}
-	o.W = "W " + hexOrDash(im.be.written[im.wrMark:])
-	im.wrMark = len(im.be.written)
+	wr := im.be.writtenNow()
+	if im.wrMark > len(wr) {
+		im.wrMark = len(wr)
+	}
+	o.W = "W " + hexOrDash(wr[im.wrMark:])
+	im.wrMark = len(wr)
 	var rows []string
 	for b := 0; b < 2; b++ {
 		for y := range snap.Screens[b].Rows {
